@@ -183,35 +183,36 @@ def compare(m, m2, ren, extra, eq, tol=None):
     if dvs1 != dvs2:
         res.append(('dependent_variables', 'violated', dict(before=dvs1, after=dvs2)))
         return res
+    # compartments correspond by dynamics (names are not semantic): find the correspondence first
+    amap = {}
+    if (d1.odes and not d2.odes) or (d2.odes and not d1.odes):
+        res.append(('ode_presence', 'violated', dict(before=len(d1.odes), after=len(d2.odes))))
+    elif d1.odes:
+        import nmcompare
+        mapping, ev = nmcompare.find_bijection(d1.odes, d2.odes, eq, base=rmap, extra=extra)
+        res += [(o, v, (dict(d, before=d.get('reference'), after=d.get('pharmpy')) if d else d)) for o, v, d in ev]
+        if mapping:
+            amap = {a: b for a, b in mapping.items() if a != b}
+    full = dict(rmap)
+    full.update(amap)
     common = [s for s in d1.env if s in d2.env]
     for s in d1.env:
         if str(s) in dvs1 and s not in common:
             res.append((f'value[{s}]', 'violated', dict(what='observation variable no longer defined')))
     for s in common:
-        a = d1.env[s].xreplace(rmap)
+        a = d1.env[s].xreplace(full)
         b = d2.env[s]
         v, info = eq.check(a, b, extra=extra, tol=tol)
         res.append((f'value[{s}]', {'equal': 'discharged', 'differ': 'violated'}.get(v, 'inconclusive'),
                     dict(info, before=str(a)[:300], after=str(b)[:300]) if v != 'equal' else None))
-    if (d1.odes and not d2.odes) or (d2.odes and not d1.odes):
-        res.append(('ode_presence', 'violated', dict(before=len(d1.odes), after=len(d2.odes))))
-    for amt, rhs in d1.odes.items():
-        if amt not in d2.odes:
-            res.append((f'ode[{amt}]', 'violated', dict(what='compartment amount missing after refactoring')))
-            continue
-        v, info = eq.check(rhs.xreplace(rmap), d2.odes[amt], extra=extra, tol=tol)
-        res.append((f'ode[{amt}]', {'equal': 'discharged', 'differ': 'violated'}.get(v, 'inconclusive'),
-                    dict(info, before=str(rhs)[:300], after=str(d2.odes[amt])[:300]) if v != 'equal' else None))
-    for amt in d2.odes:
-        if amt not in d1.odes:
-            res.append((f'ode[{amt}]', 'violated', dict(what='new compartment amount after refactoring')))
+    name_map = {str(a.func)[2:]: str(b.func)[2:] for a, b in amap.items()}
     # dose / lag / bioavailability attachments
     for name, c in d1.comp.items():
-        c2 = d2.comp.get(name)
+        c2 = d2.comp.get(name_map.get(name, name))
         if c2 is None:
             continue
         for fld in ('lag', 'bio', 'input'):
-            v, info = eq.check(c[fld].xreplace(rmap), c2[fld], extra=extra)
+            v, info = eq.check(c[fld].xreplace(full), c2[fld], extra=extra)
             if v == 'differ':
                 res.append((f'{fld}[{name}]', 'violated', info))
         if [(x['kind'], x['admid']) for x in c['doses']] != [(x['kind'], x['admid']) for x in c2['doses']]:
